@@ -12,6 +12,7 @@ from asyncio import (
     gather,
     get_running_loop,
     isfuture,
+    wait,
 )
 from typing import TYPE_CHECKING, Any, NamedTuple, cast
 
@@ -143,18 +144,21 @@ class StreamItemQueue:
             entry = await entries.get() if held is None else held
             held = None
             if isfuture(entry):
-                try:
-                    entry = await entry
-                except CancelledError:
-                    if not (self._failed and entry.cancelled()):
-                        raise  # the consumer itself has been cancelled
+                if not entry.done():
+                    # wait() does not raise the outcome of the item, so that a
+                    # CancelledError raised here is always our own cancellation
+                    await wait({entry})
+                if entry.cancelled() and self._failed:
                     # The pending item has been cancelled because the stream
                     # failed: skip the remaining items and deliver the failure.
                     while not isinstance(entry, _ErrorEntry):
                         entry = await entries.get()
-                except Exception:
-                    await self._cleanup()
-                    raise
+                else:
+                    try:
+                        entry = entry.result()
+                    except Exception:
+                        await self._cleanup()
+                        raise
             if entry is _END:
                 self._stopped = True
                 return
